@@ -1,8 +1,11 @@
 #!/bin/bash
 # runs every quick (or thorough) check once; prints one line per property
+# tools/run_all.sh [quick|thorough] [NN ...]   (optional list of two-digit property numbers, in the order given)
 tier=${1:-quick}
+shift
+ids="$*"; [ -n "$ids" ] || ids=$(seq -w 1 20)
 cd "$(dirname "$0")/.."
-for i in $(seq -w 1 20); do
+for i in $ids; do
   s=$(date +%s.%N)
   out=$(./check C$i $tier 2>&1); rc=$?
   e=$(date +%s.%N)
